@@ -196,6 +196,8 @@ def run_case(case, r):
     if case.get("all_offsets") or len(V) <= 64:
         offsets = [np.array(o) for o in itertools.product(offs1, repeat=dim)]
     # batch forms
+    Cl = cs.coordinate((V + 0.5).tolist())
+    r.check(close(Cl, ref_coord(V + 0.5)), f"C01/coordinate-batch/{tag}", "a nested list of fractional voxel positions converts like the array", type=type(Cl).__name__)
     Cv = cs.coordinate(V)
     r.check(isinstance(Cv, darsia.CoordinateArray) and close(Cv, ref_coord(V)), f"C01/coordinate-batch/{tag}", "coordinate(batch of voxels incl. halo) follows the affine model, returned as CoordinateArray", type=type(Cv).__name__)
     for o in offsets:
@@ -228,6 +230,10 @@ def run_case(case, r):
         if not (isinstance(g1, darsia.Coordinate) and not isinstance(g1, darsia.CoordinateArray) and close(g1, w)):
             okc = False
         if not (close(g2, w) and close(g3, w)):
+            okt = False
+        # fractional positions (the voxel centre) as plain list / tuple / array
+        wc = ref_coord(v + 0.5)[0]
+        if not (close(cs.coordinate((v + 0.5).tolist()), wc) and close(cs.coordinate(tuple((v + 0.5).tolist())), wc) and close(cs.coordinate(v + 0.5), wc)):
             okt = False
     r.check(oks, f"C01/voxel-single/{tag}", "single point -> Voxel of shape (dim,) equal to the containing voxel (centre of every voxel incl. halo)")
     r.check(okl, f"C01/voxel-single/{tag}", "list form gives the same voxel")
